@@ -255,11 +255,25 @@ def plan(prop, tier, seed, find):
         return dict(engine="symx", bundles=_solve_bundles(tier, seed, find, "C19", ["cutoff2"]) + _polls_bundles(tier, seed, "C19"), prefixes=["C19:"], vacuity=dict(interrupted=1, boundary=1, polls_ge8=1), functions=FUNCS_SOLVE, bounds=bound_solve + "; two solver runs with cut-off at poll K and K+1 inside one symbolic execution, K symbolic in 1..40; plus, on n=4 models, one uninterrupted run whose wrappers record the upper bound at every poll (covers all K at once; counterexamples are replayed with real cut-off runs)",
                     nontrivial=("decided sub-case in which the cut-off interrupted the run on some path", lambda r: r["notes"].get("interrupted", 0) > 0))
     if prop == "C14":
-        return dict(engine="symx", bundles=_solve_bundles(tier, seed, find, "C14", ["warm"]), prefixes=["C14:"], vacuity=dict(merge=1), functions=FUNCS_SOLVE, bounds=bound_solve + "; primal = value and decisions of an enumerated feasible path (index seeded)",
+        parw = _par_bundles(tier, seed, "C14", ["warm"], variants=[dict(threads=1, preempt=0, cache=0, fringe="simple"), dict(threads=1, preempt=0, cache=1, fringe="nodup"), dict(threads=2, preempt=1, cache=1, fringe="simple")], nseeds=(1 if tier == "quick" else 6))
+        return dict(engine="symx", bundles=_solve_bundles(tier, seed, find, "C14", ["warm"]) + parw, prefixes=["C14:"], vacuity=dict(merge=1), functions=FUNCS_SOLVE, bounds=bound_solve + "; primal = value and decisions of an enumerated feasible path (index seeded)",
                     nontrivial=("decided sub-case with >= 2 explored paths", lambda r: r["paths"] >= 2))
     if prop == "C09":
         fams = [dict(n=3, b=2, d=2, setnext=1, nsym=6), dict(n=4, b=2, d=2, setnext=1, nsym=6), dict(n=4, b=2, d=2, setnext=0, nsym=7), dict(n=3, b=3, d=2, setnext=1, nsym=5, depth_free=1)]
-        return dict(engine="symx", bundles=_solve_bundles(tier, seed, find, "C09", ["plain"], fams=fams, caches=("1",), nseeds=(3 if tier == "quick" else 12)), prefixes=["C09:", "nontermination"], vacuity=dict(explored_ge2=1, explored_ge4=1), functions=FUNCS_SOLVE + ["kani: Cache::must_explore"], bounds=bound_solve + "; SimpleCache only, re-convergent structures (2 base states per layer)",
+        # diagram-level inductive invariant of the thresholds (restricted + relaxed compilation with the real SimpleCache, then a second step)
+        inv = []
+        limi = dict(max_paths=300, max_secs=6) if tier == "quick" else dict(max_paths=20000, max_secs=600)
+        ii = 0
+        for k in range(4 if tier == "quick" else 24):
+            for dd in DD3:
+                ii += 1
+                inv.append(P(kind="dd", dd=dd, comp="relaxed", seed=seed * 1000 + 800 + k, width="1,2", roots="all", rub=("hslack" if ii % 4 else "none"), lb="sym", hist=(1 if ii % 2 else 2), hist_seed=ii, rev=ii % 2, props="C09", n=3, b=3, d=2, setnext=1, **limi))
+        for k in range(2 if tier == "quick" else 12):
+            for dd in DD3:
+                ii += 1
+                inv.append(P(kind="dd", dd=dd, comp="relaxed", seed=seed * 1000 + 850 + k, width="2", roots="0", rub="hslack", lb="sym", hist=2, hist_seed=ii, rev=ii % 2, props="C09", n=4, b=2, d=2, setnext=1, nsym=8, **limi))
+        parc = _par_bundles(tier, seed, "C09", ["plain"], variants=[dict(threads=2, preempt=1, cache=1, fringe="simple", mapyield=1), dict(threads=2, preempt=2, cache=1, fringe="nodup"), dict(threads=3, preempt=1, cache=1, fringe="simple")], nseeds=(1 if tier == "quick" else 6))
+        return dict(engine="symx", bundles=inv + _solve_bundles(tier, seed, find, "C09", ["plain"], fams=fams, caches=("1",), nseeds=(2 if tier == "quick" else 12)) + parc, prefixes=["C09:", "nontermination"], vacuity=dict(explored_ge2=1, explored_ge4=1, threshold_checked=1, second_step=1), functions=FUNCS_SOLVE + ["kani: Cache::must_explore"], bounds=bound_solve + "; SimpleCache only, re-convergent structures (2 base states per layer); diagram level: the solver step (restricted then relaxed compilation against the real SimpleCache, cut-set kept as open set) on every reachable root with symbolic incumbent, followed by one or two further steps on seeded cut-set nodes, threshold invariant checked after each step",
                     nontrivial=("decided sub-case in which the solver processed >= 2 sub-problems on some path", lambda r: r["notes"].get("explored_ge2", 0) > 0), kani=["C09"])
     bound_par = ("table models n=3, <=3 base states, 2-3 symbolic arc costs; 1-3 workers (thorough: up to 4), pre-emption bound 1-2 (thorough: up to 3), every lock acquisition / condvar wait / worker exit a scheduling choice, "
                  "cache calls too where mapyield=1; step bound 3000; counterexamples replay concretely on the scheduled build; per sub-case budget quick 800 paths/15 s")
@@ -323,8 +337,13 @@ def plan(prop, tier, seed, find):
         for k in range(6 if tier == "quick" else 24):
             for uv in (0, 1):
                 b.append(P(kind="dominance", len=(3 if tier == "quick" else 4), use_value=uv, seed=base + 1 + k, count=1, **lim))
-        return dict(engine="symx", bundles=b, prefixes=["C10:"], vacuity=dict(dominated=1), functions=["ddo::SimpleDominanceChecker::{new, is_dominated_or_insert, cmp}", "ddo::Dominance::{partial_cmp, cmp} (Kani, [isize;3])"],
-                    bounds="sequences of 3 (thorough 4) queries + 2 probes, key pattern seeded (same / different / no key), 2 coordinates and the value of every query symbolic in +-100, with and without value; reference keeps every recorded state",
+        limk = dict(max_paths=500, max_secs=8) if tier == "quick" else dict(max_paths=20000, max_secs=600)
+        for k in range(2 if tier == "quick" else 10):
+            for dd in DD3:
+                for ca in ("0", "1"):
+                    b.append(P(kind="knap", dd=dd, cache=ca, dom="full,partial", width="1,2", fringe=("nodup" if k % 2 else "simple"), n=4, nsym=3, seed=base + 50 + k, props="C10", **limk))
+        return dict(engine="symx", bundles=b, prefixes=["C10:"], vacuity=dict(dominated=1, explored_ge2=1), functions=["ddo::SimpleDominanceChecker::{new, is_dominated_or_insert, cmp}", "ddo::Dominance::{partial_cmp, cmp} (Kani, [isize;3])"],
+                    bounds="sequences of 3 (thorough 4) queries + 2 probes, key pattern seeded (same / different / no key), 2 coordinates and the value of every query symbolic in +-100, with and without value; reference keeps every recorded state; solver level: 4-item knapsacks (seeded weights/capacity, 3 symbolic profits in -50..100) with the rule 'more capacity and more value dominates' on all layers and on even layers only, all diagram types, cache on/off, widths 1-2",
                     nontrivial=("decided sequence in which at least one query was reported dominated", lambda r: r["notes"].get("dominated", 0) > 0), kani=["C10"])
     if prop == "C17":
         return dict(engine="kani", bundles=[], prefixes=[], vacuity={}, functions=[], bounds="none: Solver::gap is loop-free; all 2^128 pairs (lb, ub) with lb <= ub, IEEE-754 f32 semantics, decided by CBMC",
